@@ -1,6 +1,7 @@
 // Implementation side of the M-TPL correspondence (C27, C28, C29): tpl.New + Compiler.Match.
 //
-//	tplm -mode scan  : stdin <hex grammar text> TAB <hex input text>
+//	tplm -mode scan  : stdin <hex grammar text> TAB <hex input text> [TAB <retprocs>]   (retprocs: see func retprocs;
+//	                   passed through to the model line as a third field)
 //	                   stdout the line the model runner consumes:
 //	                     [!]<grammar words> TAB <input tokens>
 //	                   grammar words as for C31, literals carry the result of strconv.Unquote /
@@ -9,7 +10,7 @@
 //	                   input tokens  <tok>:<hexlit>:<pos>  exactly as Compiler.Match scans them.
 //	tplm -mode compile: same stdin; stdout  PARSEERR | CERR | CPANIC | COMPILED  TAB <oracle verdict>  (tpl.New only)
 //	tplm -mode match : same stdin; stdout  <result> TAB <oracle verdict>
-//	                   result: PARSEERR | CERR | CPANIC | MPANIC | ok <n> <tree> | fail <n>
+//	                   result: PARSEERR | CERR | CPANIC | MPANIC | ok <n> <tree> | fail <n> | dyn <n> (runtime error of a RetProc)
 //	                   each Match runs under a watchdog: on timeout the line "HANG" is printed and
 //	                   the process exits with status 3 (the looping goroutine cannot be stopped).
 //
@@ -30,6 +31,7 @@ import (
 	"time"
 
 	"github.com/goplus/xgo/tpl"
+	"github.com/goplus/xgo/tpl/matcher"
 	"github.com/goplus/xgo/tpl/parser"
 	"github.com/goplus/xgo/tpl/scanner"
 	"github.com/goplus/xgo/tpl/token"
@@ -162,12 +164,63 @@ func (p *shower) show(r any) string {
 		}
 		sb.WriteString(" ]")
 		return sb.String()
+	case string:
+		if v == "W" { // the tag of the "wrap" rewriter
+			return "W"
+		}
 	}
 	p.bad = fmt.Sprintf("unexpected-result-type-%T", r)
 	return "?"
 }
 
-func compile(g []byte) (c tpl.Compiler, status string, verdict string) {
+// result rewriters (RetProcs) installed through tpl.New:  <rule>=<kind>[:<hex literal>], comma separated
+//   id  wrap  rejdyn:<lit> (panics with a string -> runtime "Dyn" error)  rejerr:<lit> (panics with a non-Dyn *matcher.Error)
+//   boom (always panics with a string)
+func retprocs(spec string) (params []any) {
+	if spec == "" || spec == "-" {
+		return nil
+	}
+	for _, item := range strings.Split(spec, ",") {
+		kv := strings.SplitN(item, "=", 2)
+		if len(kv) != 2 {
+			continue
+		}
+		kind, arg := kv[1], ""
+		if j := strings.IndexByte(kind, ':'); j >= 0 {
+			b, _ := hex.DecodeString(kind[j+1:])
+			kind, arg = kind[:j], string(b)
+		}
+		var fn func(self any) any
+		switch kind {
+		case "id":
+			fn = func(self any) any { return self }
+		case "wrap":
+			fn = func(self any) any { return []any{"W", self} }
+		case "rejdyn":
+			fn = func(self any) any {
+				if t, ok := self.(*tpl.Token); ok && t.Lit == arg {
+					panic("rejected " + arg)
+				}
+				return self
+			}
+		case "boom":
+			fn = func(self any) any { panic("boom") }
+		case "rejerr":
+			fn = func(self any) any {
+				if t, ok := self.(*tpl.Token); ok && t.Lit == arg {
+					panic(&matcher.Error{Pos: t.Pos, Msg: "rejected " + arg})
+				}
+				return self
+			}
+		default:
+			continue
+		}
+		params = append(params, kv[0], fn)
+	}
+	return
+}
+
+func compile(g []byte, rps string) (c tpl.Compiler, status string, verdict string) {
 	verdict = "ok"
 	defer func() {
 		if e := recover(); e != nil {
@@ -175,7 +228,7 @@ func compile(g []byte) (c tpl.Compiler, status string, verdict string) {
 		}
 	}()
 	_, perr := parser.ParseFile(token.NewFileSet(), "", g, nil)
-	c, err := tpl.New(g)
+	c, err := tpl.New(g, retprocs(rps)...)
 	if perr != nil {
 		if err == nil {
 			return c, "PARSEERR", "tpl.New-accepts-unparsable-grammar"
@@ -197,6 +250,9 @@ func match(c *tpl.Compiler, in []byte) (out string, verdict string) {
 	}()
 	ms, result, err := c.Match("", in, nil)
 	if err != nil {
+		if e, ok := err.(*matcher.Error); ok && e.Dyn {
+			return fmt.Sprintf("dyn %d", ms.N), verdict
+		}
 		return fmt.Sprintf("fail %d", ms.N), verdict
 	}
 	sh := &shower{idx: map[*tpl.Token]int{}, last: -1, n: ms.N}
@@ -229,16 +285,20 @@ func main() {
 		if len(f) > 1 {
 			in, _ = hex.DecodeString(f[1])
 		}
+		rps := ""
+		if len(f) > 2 {
+			rps = f[2]
+		}
 		if *mode == "scan" {
 			ws, nerr := grammarWords(g)
 			pre := ""
 			if nerr > 0 {
 				pre = "!"
 			}
-			fmt.Fprintf(w, "%s%s\t%s\n", pre, strings.Join(ws, " "), strings.Join(inputTokens(in), " "))
+			fmt.Fprintf(w, "%s%s\t%s\t%s\n", pre, strings.Join(ws, " "), strings.Join(inputTokens(in), " "), rps)
 			continue
 		}
-		c, status, verdict := compile(g)
+		c, status, verdict := compile(g, rps)
 		if status != "" {
 			fmt.Fprintf(w, "%s\t%s\n", status, verdict)
 			continue
